@@ -75,3 +75,41 @@ def compare(ctx, impl_enc, ref, rel=1e-9):
     if ref is None:
         return True, v  # model out of fuel: nothing to compare (counted separately)
     return close_enough(v, ref, rel), v
+
+
+def decode_grammar(out, sr="frac"):
+    """grammar returned by the driver (names as repr strings) -> harness encoding.
+    Terminals are recognised by membership in V (as the library does)."""
+    V = set(out["V"])
+    tmap = {repr(M.tname(a)): a for a in range(26)}
+    nmap = {}
+
+    def nt(name):
+        if name not in nmap:
+            nmap[name] = len(nmap)
+        return nmap[name]
+
+    S = nt(out["S"])
+    rules = []
+    any_inexact = False
+    for w, h, b in out["rules"]:
+        body = []
+        for y in b:
+            if y in V:
+                if y not in tmap:
+                    raise ValueError(f"unexpected terminal {y}")
+                body.append(["T", tmap[y]])
+            else:
+                body.append(["N", nt(y)])
+        inexact = False
+        if isinstance(w, dict) and "f" in w:
+            # floats appear even on Fraction inputs (Float.star of the int 0 is 1.0); recover the rational
+            fr = Fraction(float(w["f"])).limit_denominator(10 ** 7)
+            w = f"{fr.numerator}/{fr.denominator}"
+            inexact = True
+        elif isinstance(w, dict):
+            raise ValueError(f"unexpected weight {w}")
+        rules.append([w, nt(h), body])
+        any_inexact = any_inexact or inexact
+    nT = max([tmap[v] for v in V if v in tmap] + [-1]) + 1
+    return {"S": S, "nT": nT, "rules": rules, "inexact": any_inexact}
